@@ -13,8 +13,12 @@ def oracle_independent_factory():
     """Result and consumed prefix must not depend on A, M or the attached void actions: group the cases of one
     (grammar, root, input) and compare their R lines."""
     seen = {}
+    cur = [None]
 
     def oracle(c, tr):
+        if cur[0] != c.g.gid:       # cases arrive grammar by grammar
+            seen.clear()
+            cur[0] = c.g.gid
         key = (c.g.gid, c.cfg.root, c.data, c.cfg.eol, c.cfg.lazy)
         r = tr.result.split()[:3] if tr.result.startswith('R 1') else tr.result.split()[:2]
         prev = seen.setdefault(key, (r, c.cfg))
